@@ -36,7 +36,8 @@ Definition spec_chk_nowords (c : opt_case) : bool := spec_chk_gen false c.
 
 def fixed_defs(ctx):
     return ("".join("Definition fx_%s : schema := %s.\n" % (ek, fixed_schema(ctx, ek).coq()) for ek in ELEMENTS) +
-            "".join("Definition tg_%s : schema := %s.\n" % (ek, targets_schema(ctx, ek).coq()) for ek in ELEMENTS))
+            "".join("Definition tg_%s : schema := %s.\n" % (ek, targets_schema(ctx, ek).coq()) for ek in ELEMENTS) +
+            "".join("Definition tw_%s : schema := %s.\n" % (ek, twin_schema(ctx, ek).coq()) for ek in ELEMENTS))
 
 
 def generate(ctx, n_random, corpus_stride):
@@ -78,6 +79,32 @@ def generate(ctx, n_random, corpus_stride):
                 c = make_case(rng, ctx, ek, 0, fixed=(tsch[ek], sts))
                 c["sch_ref"] = "tg_" + ek
                 cases.append(("targets", c))
+    # 1c. one field descriptor through several paths of one options message (sibling sub-messages of one type, two
+    #     extensions of one type, recursive types, repeated message elements; fields without presence in proto3 and
+    #     edition 2023, with presence in proto2): the hand-made pairs on a third fixed schema, then random statements of
+    #     that shape over it and over random schemas; every other case has a second element with the same statements
+    wsch = {ek: twin_schema(ctx, ek) for ek in eks}
+    wcs = twin_corpus()
+    for k, ek in enumerate(eks):
+        for i, sts in enumerate(wcs):
+            tail = i >= len(wcs) - 26
+            if corpus_stride == 1 or (ek == "message" and (i % 2 == 0 or tail)) or i % 16 == k or (tail and i % 4 == k % 4):
+                c = make_case(rng, ctx, ek, 0, fixed=(wsch[ek], sts), again=(sts if i % 2 else None))
+                c["sch_ref"] = "tw_" + ek
+                cases.append(("same-field-paths", c))
+    for i in range(n_random // 4):
+        ek = eks[i % len(eks)]
+        if i % 3 == 2:
+            sch = gen_schema(ctx, rng, ek, rich=True, p3=True)
+            sts = same_field_stmts(rng, sch)
+            if sts is None:
+                continue
+            cases.append(("same-field-paths-random", make_case(rng, ctx, ek, 0, fixed=(sch, sts), again=(sts if rng.chance(1, 3) else None))))
+        else:
+            sts = same_field_stmts(rng, wsch[ek], lits=(i % 3 == 1))
+            c = make_case(rng, ctx, ek, 0, fixed=(wsch[ek], sts), again=(sts if rng.chance(1, 3) else None))
+            c["sch_ref"] = "tw_" + ek
+            cases.append(("same-field-paths-random", c))
     # 2. random: scalars + paths + repeated first, then the rich schemas
     for i in range(n_random):
         ek = eks[i % len(eks)]
@@ -172,7 +199,7 @@ def run(ctx):
                 "ones too - declares targets); when mirror model and implementation disagree, a search around the disagreeing cases "
                 "(single statements, respellings, leave-one-out, random statements over the same schema) against the specification; distinct = distinct (schema, element kind, "
                 "statements); non-trivial = at least one statement")
-    cases = generate(ctx, ctx.budget(520, 12000), ctx.budget(8, 1))
+    cases = generate(ctx, ctx.budget(480, 12000), ctx.budget(8, 1))
     outs = ctx.impl("options", [c["input"] for _, c in cases])
     terms, meta = [], []
     unmodelled = {}
